@@ -18,7 +18,7 @@ LEVEL_TEXT = (
     "read that field and feed it to a comparison, a checked `get` or a bitmap lookup whose failing edge returns Err. "
     "Register operands must additionally be looked up in the written-registers bitmap before the destination is marked; "
     "SSA operands must be compared with the running wire index (no forward references); eval and Evaluator::run must "
-    "compare party and bit counts before the first index into the inputs. A field matched with `_` in validate cannot be "
+    "compare party and bit counts before the first index into the inputs; all comparisons against one bound use one comparator (G4). A field matched with `_` in validate cannot be "
     "guarded by it - exactly the defect found (Input.party / Input.input). Not decided: that the comparisons use the right "
     "bound values (value level; one such defect, max_reg_count == 0, was found by reading and repaired), and 'validation "
     "accepts every compiler-produced circuit'.")
